@@ -283,6 +283,108 @@ def payload_keepalive_script(rnd, sid, sizes):
     return sc
 
 
+# ---------------------------------------------------------------- the device service's client (internal/driver/device.go)
+def driver_requests(seed, thorough):
+    """scenarios for harness/driver/c07_test.go: a real LLRPDevice (Driver.NewLLRPDevice: the driver's own handlers and
+    options) against a scripted loopback reader; the consumer of the asynchronous-values channel (EdgeX) is stalled, slow
+    or keeping up; tag reports / reader events — more than the channel holds — and keep-alives in between"""
+    rnd = random.Random(seed + 53)
+    out = [
+        dict(id="drv-stalled-cap1", cap=1, consumer="stalled",
+             traffic=[dict(k="report", n=4, payload="empty"), dict(k="ka", id=4660), dict(k="report", n=3, payload="tags"), dict(k="ka", id=2),
+                      dict(k="event", n=2), dict(k="ka", id=3)]),
+        dict(id="drv-stalled-cap0", cap=0, consumer="stalled",
+             traffic=[dict(k="ka", id=1), dict(k="report", n=1, payload="tags"), dict(k="ka", id=0), dict(k="report", n=6, payload="tags"),
+                      dict(k="ka", id=4294967295)]),
+        dict(id="drv-stalled-cap16", cap=16, consumer="stalled",
+             traffic=[dict(k="report", n=20, payload="tags"), dict(k="ka", id=7), dict(k="event", n=20), dict(k="ka", id=8)]),
+        dict(id="drv-slow", cap=1, consumer="slow",
+             traffic=[dict(k="report", n=10, payload="tags"), dict(k="ka", id=1), dict(k="event", n=5), dict(k="ka", id=2)]),
+        dict(id="drv-keeping-up", cap=1, consumer="keeping-up",
+             traffic=[dict(k="report", n=10, payload="tags"), dict(k="ka", id=1), dict(k="event", n=5), dict(k="ka", id=2)]),
+    ]
+    for i in range(12 if thorough else 3):
+        tr, kid = [], rnd.randrange(1, 1 << 31)
+        for _ in range(rnd.randrange(3, 9)):
+            r = rnd.random()
+            if r < 0.4:
+                tr.append(dict(k="report", n=rnd.choice([1, 2, 5, 17, 40]), payload=rnd.choice(["empty", "tags"])))
+            elif r < 0.6:
+                tr.append(dict(k="event", n=rnd.choice([1, 3, 18])))
+            else:
+                kid += 1
+                tr.append(dict(k="ka", id=kid))
+        kid += 1
+        tr.append(dict(k="ka", id=kid))
+        out.append(dict(id="drv-rnd-%d" % i, cap=rnd.choice([0, 1, 2, 16]), consumer=rnd.choice(["stalled", "stalled", "slow"]), traffic=tr))
+    return out
+
+
+def judge_driver(rq, o):
+    """C07 on what the scripted reader saw: every keep-alive (at most 4 earlier ones unacknowledged) acknowledged exactly
+    once with its id, no other acknowledgement. returns (violations, harness problem or None)"""
+    if o is None or o.get("setup") != "ok" or not o.get("payload_ok"):
+        return [], "scenario %s did not get going: %s" % (rq["id"], o)
+    bad = []
+    for k in o.get("kas") or []:
+        if k["acks"] == 0 and k["pending_before"] <= 4:
+            bad.append(("driver-keepalive-not-acked",
+                        "device service (a real LLRPDevice from Driver.NewLLRPDevice, consumer of the asynchronous-values channel %s, "
+                        "channel capacity %d): keep-alive id %d — sent after %d tag report(s) / %d reader event(s), %d earlier keep-alive(s) "
+                        "unacknowledged — was not acknowledged within %d ms although the reader keeps reading: acknowledgement waits for "
+                        "the application's traffic" % (rq["consumer"], rq["cap"], k["id"], o.get("sent_reports", 0), o.get("sent_events", 0),
+                                                       k["pending_before"], k["ms"])))
+        elif k["acks"] > 1:
+            bad.append(("driver-keepalive-acked-twice", "device service: keep-alive id %d was acknowledged %d times" % (k["id"], k["acks"])))
+    if o.get("stray_acks"):
+        bad.append(("driver-ack-without-keepalive", "device service: KeepAliveAck id(s) %s answer no keep-alive the reader sent" % o["stray_acks"][:5]))
+    return bad, None
+
+
+def driver_part(res, seed, thorough, reported, only=None):
+    """returns (#scenarios, #keep-alives sent)"""
+    ok, log, exe = vlib.build_harness("driver", PID, ["c07_test.go"])
+    if not ok:
+        res.violation("build", "driver harness does not build against the repository: " + log[-1500:], dict(kind="build"), False)
+        return 0, 0
+    reqs = only or driver_requests(seed, thorough)
+
+    def run(rs):
+        rc, lines, lg = vlib.run_harness(exe, "TestVerifC07Driver", "".join(json.dumps(r) + "\n" for r in rs), timeout=300, tag="_drv")
+        outs = []
+        for ln in lines:
+            try:
+                outs.append(json.loads(ln))
+            except ValueError:
+                outs.append(None)
+        return outs + [None] * (len(rs) - len(outs))
+
+    n_ka = 0
+    for rq, o in zip(reqs, run(reqs)):
+        bad, problem = judge_driver(rq, o)
+        if bad and all(sig in reported for sig, _ in bad) and not problem:
+            bad = []                      # already reported from an earlier scenario: no need to confirm it again
+        if bad or problem:
+            # real time and real sockets: it must fail again, twice, run alone (a stalled machine must not raise an alarm)
+            for _ in range(2):
+                o2 = run([rq])[0]
+                bad2, problem2 = judge_driver(rq, o2)
+                if not bad2 and not problem2:
+                    bad, problem = [], None
+                    break
+                bad, problem = bad2 or bad, problem2
+        if problem and "driver-harness" not in reported:
+            reported.add("driver-harness")
+            res.violation("harness-run", problem, dict(kind="harness", driver_scenario=rq), False)
+        n_ka += len((o or {}).get("kas") or [])
+        for sig, text in bad:
+            if sig not in reported:
+                reported.add(sig)
+                res.violation(sig, "%s [scenario %s]" % (text, rq["id"]), dict(kind="driver-scenario", driver_scenario=rq, observed=o,
+                                                                               theorem="C07_device_acks_independent_of_application"))
+    return len(reqs), n_ka
+
+
 def class_scripts(seed, thorough):
     rnd = random.Random(seed + 29)
     out = []
@@ -312,6 +414,9 @@ def run(tier, seed, replay=None):
         "'as long as the reader keeps reading' is modelled as: the write loop's Write steps are enabled (the proof gives enabledness, "
         "the harness observes the acknowledgement frames); scheduler fairness is not modelled",
         "script interpreter coq/Client/Script.v and the quiescence detection of the Go runner",
+        "device-service scenarios (harness/driver/c07_test.go): a real LLRPDevice over loopback TCP against a scripted reader; real time "
+        "(2 s per acknowledgement, normally < 1 ms); a failing scenario is re-run alone twice and reported only if it fails every time; "
+        "which shape of forwarding the handlers have (Client/DeviceHandler.v) is decided by these runs, not by translation of device.go",
     ]
     vlib.proof_part(res, PID)
     exe, err = cc.build(PID)
@@ -327,7 +432,9 @@ def run(tier, seed, replay=None):
         if scripts and scripts[0].get("family") in ("splitcancel", "timed"):
             scripts_pred, scripts = scripts, []
     else:
-        scripts = class_scripts(seed, thorough) + gen_scripts(seed, 3000 if thorough else 500)
+        rb = random.Random(seed + 41)
+        scripts = (class_scripts(seed, thorough) + gen_scripts(seed, 3000 if thorough else 500)
+                   + [cc.coalesced_script(rb, "c07-coalesced-%d" % i, "ka") for i in range(400 if thorough else 60)])
     def view_of(sc, g):
         v = cc.go_view(sc, g)
         v["order"], v["drained"] = cc.c07_order(sc, g)
@@ -451,7 +558,14 @@ def run(tier, seed, replay=None):
                 if sig not in reported:
                     reported.add(sig)
                     res.violation(sig, "%s [stress %s]" % (text, rq["id"]), dict(kind="stress", stress=rq, theorem="C07_*"))
+    n_drv = n_drv_ka = 0
+    if not replay or "driver_scenario" in rp_data:
+        n_drv, n_drv_ka = driver_part(res, seed, thorough, reported, only=[rp_data["driver_scenario"]] if replay else None)
+        evals += n_drv
+        n_ka += n_drv_ka
+        dist["device-service"] = n_drv
     res.coverage.update(
+        driver_scenarios=dict(run=n_drv, keepalives=n_drv_ka),
         evaluations=evals, distinct_nontrivial=len(nontriv), keepalives_sent=n_ka, acks_seen=n_ack, not_acked_backlog=n_drop,
         rule="a case is one script / stress run; non-trivial iff at least one keep-alive reached the client; "
              "distinct by (script id, #keep-alives, #acks, #callers)",
